@@ -135,6 +135,9 @@ def uncertainty_tokenizer(input_string: str) -> Generator[TokenInfo, None, None]
         toklist: IteratorLookAhead[TokenInfo], e_index: int
     ) -> TokenInfo | None:
         possible_e_token = toklist.lookahead(e_index)
+        if not possible_e_token.string:
+            # NEWLINE / ENDMARKER: the notation ends the input, no exponent follows
+            return None
         if (
             possible_e_token.string[0] == "e"
             and len(possible_e_token.string) > 1
